@@ -68,7 +68,12 @@ func appendIfNotIn(ids []*Identity, chk *Identity) []*Identity {
 // addChildren adds identity r and all of its children to ids
 // deterministically.
 func addChildren(r *Identity, ids []*Identity) []*Identity {
+	n := len(ids)
 	ids = appendIfNotIn(ids, r)
+	if len(ids) == n {
+		// r and its children have already been added.
+		return ids
+	}
 
 	// Iterate through the values of r.
 	for _, ch := range r.Values {
@@ -181,6 +186,11 @@ func (ms *Modules) resolveIdentities() []error {
 		newValues := []*Identity{}
 		for _, j := range i.Identity.Values {
 			newValues = addChildren(j, newValues)
+		}
+		for _, v := range newValues {
+			if v == i.Identity {
+				errs = append(errs, fmt.Errorf("%s: identity %s is derived from itself", Source(i.Identity), i.Identity.Name))
+			}
 		}
 		sort.SliceStable(newValues, func(j, k int) bool {
 			return newValues[j].Name < newValues[k].Name
